@@ -1,5 +1,11 @@
 """Registry fragment of the cluster family (C01)."""
 ENGINES = [
+    dict(name="Restart", path="spec/Restart.tla", serves_properties=["C01", "C13", "C16"],
+         kind_free_text="TLA+ spec of one (re)start of jobs.Job inside a living job: start() as ReadCheckpoint / SendDeploys / DeployNode per member / "
+                        "StartSplitter / Run, the store's publication as last acknowledgement (write in flight) / PublishDone enabled at any time, "
+                        "ghost checkpoint ids of every Deploy request and of the splitter, invariant SingleCut; TLC exhaustive with -coverage, "
+                        "transition cover + simulated behaviours + witness schedules of the deviating designs Dev_RereadAfterDeploy / Dev_RereadAtDeploy "
+                        "replayed on the real jobs.Job + snapshots.Store with fake nodes (harness/cmd/membership mode restart, checks/restartlib.py)"),
     dict(name="Recovery", path="spec/Recovery.tla", serves_properties=["C01", "C14"],
          kind_free_text="TLA+ spec of a whole reduction cluster at message granularity (runner reads, per-(runner,operator) channels with "
                         "head-of-line blocking, barrier alignment, operator batching, job checkpoint coordination with acks in any order, "
@@ -15,7 +21,9 @@ CHECKS = {
         engine="Recovery",
         technique="TLA+/TLC model checking of Recovery.tla; TLC-generated kill/ack/delivery/publication/rescale schedules replayed on the real "
                   "in-process cluster through harness-owned adapters (no network; only the verif-tag tunables of dkv's memtable / level sizes); "
-                  "recorded seeded free-running runs validated by RecoveryTrace.tla",
+                  "recorded seeded free-running runs validated by RecoveryTrace.tla; one cut per restart: spec/Restart.tla (start() stepped, "
+                  "publication in two steps) replayed on the real jobs.Job with fake nodes, the snapshot write and every step of start() gated "
+                  "(checks/restartlib.py)",
         text="TLC exhaustively checks NoDouble/SeenIsClean/NoLoss/FinalState/ConsistentCut for 2 workers, 2 splits x 2 records, <=2 checkpoints, "
              "<=2 kills of any node set (incl. the job) at every state and every ack order; hundreds of simulated behaviours of the same spec are "
              "forced step by step onto the real Job/SourceRunner/Operator/dkv and judged by the state the real handler is given for every event, "
@@ -26,8 +34,9 @@ CHECKS = {
              "machinery error); restart with another worker count (1<->2 exhaustive in TLC, 1<->2 and 2<->3 replayed, 1..3 in free-running traces): "
              "splits re-assigned, several old operator checkpoints merged into one new operator / one old checkpoint shared by several; a new "
              "checkpoint created while the previous snapshot write is in flight, writes landing in either order, kills inside that window.",
-        note="Bounded constants (worker counts 1..3); one assembly per job (a restart is a new Job + fresh workers: in-job reassembly is C15; the "
-             "worker count only changes with such a restart); dkv flush/compaction run free under the operators (tuned sizes), their "
+        note="Bounded constants (worker counts 1..3); one assembly per job (a restart is a new Job + fresh workers; the worker count only "
+             "changes with such a restart; of a re-assembly inside a living job the restart arm - Restart.tla stepped through start() of the real "
+             "jobs.Job with the publication gated - checks that operators and sources resume from one cut, the rest is C15); dkv flush/compaction run free under the operators (tuned sizes), their "
              "interleaving with the DKV checkpoint is sampled by the Go scheduler, not enumerated (C08/C18 enumerate it); watermarks are dropped "
              "in replay mode and passed in trace mode; the snapshot write may stay in flight across kills and the next checkpoint, but one "
              "publication (write + deletion of the old file + retention round to the operators) is one step; no new checkpoint is started "
